@@ -247,7 +247,20 @@ func (matrix *DenseFloat32Matrix) Tip() {
   matrix.rowMax, matrix.colMax = matrix.colMax, matrix.rowMax
 }
 func (matrix *DenseFloat32Matrix) AsVector() Vector {
-  return DenseFloat32Vector(matrix.values)
+  // a matrix that owns its whole storage is reinterpreted in place, the
+  // elements of a slice or transposed view are gathered in row-major order
+  if !matrix.transposed && matrix.rowOffset == 0 && matrix.colOffset == 0 &&
+      matrix.rows == matrix.rowMax && matrix.cols == matrix.colMax {
+    return DenseFloat32Vector(matrix.values)
+  }
+  n, m := matrix.Dims()
+  v := make(DenseFloat32Vector, n*m)
+  for i := 0; i < n; i++ {
+    for j := 0; j < m; j++ {
+      v[i*m + j] = matrix.values[matrix.index(i, j)]
+    }
+  }
+  return v
 }
 func (matrix *DenseFloat32Matrix) storageLocation() uintptr {
   return uintptr(unsafe.Pointer(&matrix.values[0]))
